@@ -179,6 +179,7 @@ class Frame:
         return (self.fn.qual, frozenset(self.vars.items()), self.caller_cur, self.Wentry, self.eaten, self.seq)
 
 
+
 class St:
     __slots__ = ('W', 'cur', 'frames', 'log', 'imprecise')
 
@@ -831,7 +832,7 @@ class TokInterp(Interp):
         s.cur = target
         eaten_syms = [Wen[1 + j] - {EOF, BOF} for j in range(shift)]
         for f2 in s.frames:
-            if f2 is s.frames[-1]:
+            if f2 is s.frames[-1] or (f2.rule is not None and all(f3.rule is None for f3 in s.frames[s.frames.index(f2) + 1:])):
                 f2.eaten = eaten_add((), eaten_syms)
                 f2.seq = tuple(frozenset(x) for x in eaten_syms)[:2]
             for k, v in list(f2.vars.items()):
@@ -926,8 +927,16 @@ class TokInterp(Interp):
     def run_frame(self, fd, bound, st, rule=None):
         s = st.copy()
         rule = rule or next((name for name, f in self.registry if f is fd), None)
-        s.frames = s.frames + (Frame(fd, dict(bound), 0, s.W, (), rule, caller_cur=s.cur),)
-        s.cur = 0
+        is_helper = rule is None and len(s.frames) >= 1 and fd.qual != 'next_token'
+        if is_helper:
+            # a helper called from a rule works in the rule's coordinates (tokens passed in and out keep
+            # their spans); a rollback inside it refers to the rule's entry
+            outer = s.frames[-1]
+            hf = Frame(fd, dict(bound), outer.entry, outer.Wentry, (), None, caller_cur=None)
+            s.frames = s.frames + (hf,)
+        else:
+            s.frames = s.frames + (Frame(fd, dict(bound), 0, s.W, (), rule, caller_cur=s.cur),)
+            s.cur = 0
         outs = []
         for out, s1 in self.block(strip_doc(fd.node.body), s):
             self.states += 1
@@ -939,7 +948,8 @@ class TokInterp(Interp):
                 fr = s1.frames[-1]
                 s2 = s1.copy()
                 s2.frames = s2.frames[:-1]
-                s2.cur = sat_add(fr.caller_cur, s1.cur)
+                if fr.caller_cur is not None:
+                    s2.cur = sat_add(fr.caller_cur, s1.cur)
                 outs.append((out[2] if len(out) > 2 else Raised(out[1]), s2))
                 continue
             else:
@@ -949,9 +959,10 @@ class TokInterp(Interp):
             s2.frames = s2.frames[:-1]
             if fr.rule is not None:
                 rv, s2 = self.rule_return(fr, rv, s2)
-            s2.cur = sat_add(fr.caller_cur, s1.cur)
-            if rv[0] == 'tok':
-                rv = ('tok', self.shift_tok(rv[1], fr.caller_cur))
+            if fr.caller_cur is not None:
+                s2.cur = sat_add(fr.caller_cur, s1.cur)
+                if rv[0] == 'tok':
+                    rv = ('tok', self.shift_tok(rv[1], fr.caller_cur))
             outs.append((rv, s2))
         return outs
 
